@@ -114,6 +114,27 @@ def save_config_for(max_prob, min_prob=0.0):
     return cfg
 
 
+_SAVE_SEQ = [0]
+
+
+def saved_config_through_real_path(pcfg, m):
+    """the session's own save path: PcfgQueue.update_save_config writes the position, the config is written
+    to a file and read back the way pcfg_guesser.load_save does"""
+    pqx = fresh_queue(pcfg)
+    pqx.max_probability = m
+    cfg = configparser.ConfigParser()
+    cfg.add_section('guessing_info')
+    pqx.update_save_config(cfg)
+    _SAVE_SEQ[0] += 1
+    path = os.path.join(common.scratch_dir('savefiles'), f"s{_SAVE_SEQ[0] % 8}.sav")
+    with open(path, 'w') as f:
+        cfg.write(f)
+    back = configparser.ConfigParser()
+    with open(path) as f:
+        back.read_file(f)
+    return back
+
+
 def oracle_full_run(grid, emitted, complete):
     """C01 + C02 predicates on the implementation's own emitted sequence"""
     v = []
@@ -216,7 +237,7 @@ def run_case(ruledir, flags, cuts_rng=None, ncuts=0, max_nodes=600, all_cuts=Fal
             ks = sorted(cuts_rng.sample(ks, min(ncuts, len(ks))))
         for k in ks:
             m = emitted[k]['prob']
-            cfg = save_config_for(m)
+            cfg = saved_config_through_real_path(pcfg, m)
             pqr = fresh_queue(pcfg, cfg)
             ops.append(f"pq.restore {f2h(m)} {f2h(0.0)}")
             exp.append(_queue_line(sigs, pqr))
